@@ -198,6 +198,9 @@ def match_known(known, features):
 
 # ---------------------------------------------------------------- verdict / evidence
 
+MAX_REPLAYS = 60      # replay files written per run
+
+
 class Verdict:
     def __init__(self, prop, tier, seed):
         self.prop, self.tier, self.seed = prop, tier, seed
@@ -216,6 +219,10 @@ class Verdict:
             w, c = self.known_hits.get(k["id"], (k["what"], 0))
             self.known_hits[k["id"]] = (w, c + 1)
             return False
+        if len(self.violations) >= MAX_REPLAYS:
+            # a broken tree violates a predicate thousands of times; the verdict is settled, the check must still finish
+            self.coverage["violations_not_written"] = self.coverage.get("violations_not_written", 0) + 1
+            return True
         os.makedirs(REPLAYS, exist_ok=True)
         path = os.path.join(REPLAYS, "%s-%s-%d-%d.json" % (self.prop, self.tier, self.seed, len(self.violations)))
         try:
